@@ -170,6 +170,9 @@ func SectionOrder(printed string) *trsrc.Module {
 			o.Comdats = append(o.Comdats, strings.TrimPrefix(f[0], "$"))
 		case strings.HasPrefix(l, "attributes #"):
 			o.Attrs = append(o.Attrs, strings.TrimPrefix(f[1], "#"))
+			if i, j := strings.Index(l, "{"), strings.LastIndex(l, "}"); i >= 0 && j > i {
+				o.AttrBodies = append(o.AttrBodies, strings.Fields(l[i+1:j]))
+			}
 		case strings.HasPrefix(l, "!") && f[1] == "=":
 			name := strings.TrimPrefix(f[0], "!")
 			if name != "" && (name[0] < '0' || name[0] > '9') {
@@ -224,6 +227,24 @@ func CompareOrder(want *trsrc.Module, m *ir.Module, printed string) []string {
 	chk("funcs", want.Funcs, got.Funcs)
 	chk("attrgroups", want.Attrs, got.Attrs)
 	chk("attrgroups(text)", want.Attrs, sec.Attrs)
+	if eq(want.Attrs, sec.Attrs) && len(want.AttrBodies) == len(sec.AttrBodies) {
+		// merged group = the attributes of all definitions in textual order, repeated ones dropped
+		for i := range want.Attrs {
+			var merged []string
+			seen := map[string]bool{}
+			for _, b := range want.AttrBodies[i] {
+				for _, a := range strings.Fields(b) {
+					if !seen[a] {
+						seen[a] = true
+						merged = append(merged, a)
+					}
+				}
+			}
+			if !eq(merged, sec.AttrBodies[i]) {
+				diff = append(diff, fmt.Sprintf("attrgroup-merge #%s: want %v got %v", want.Attrs[i], merged, sec.AttrBodies[i]))
+			}
+		}
+	}
 	chk("metadata", want.Mds, got.Mds)
 	chk("metadata(text)", want.Mds, sec.Mds)
 	chk("named-metadata(text)", want.Nmds, sec.Nmds)
